@@ -1,29 +1,57 @@
 package pdb
 
 import (
+	"encoding/json"
 	"fmt"
 	"math/rand"
 	"os"
 
 	"github.com/ethereum/go-ethereum/common"
 	"github.com/ethereum/go-ethereum/core/rawdb"
+	"github.com/ethereum/go-ethereum/triedb/pathdb"
 	tl "verif/harness/tracelib"
 )
+
+// Trace is an unbuffered ndjson writer: events must survive a log.Crit exit of the process.
+type Trace struct {
+	f *os.File
+	N int
+}
+
+func NewTrace(path string) *Trace {
+	f, err := os.Create(path)
+	if err != nil {
+		tl.Fatal("create trace: %v", err)
+	}
+	return &Trace{f: f}
+}
+
+func (t *Trace) Emit(ev any) {
+	b, err := json.Marshal(ev)
+	if err != nil {
+		tl.Fatal("marshal event: %v", err)
+	}
+	t.f.Write(append(b, '\n'))
+	t.N++
+}
+
+func (t *Trace) Close() { t.f.Close() }
 
 // Runner executes model-level operations on a real database and records one event per
 // operation: the operation, its actual arguments/outcome and the projected abstract state.
 type Runner struct {
 	E       *Env
 	Head    common.Hash // root of the top layer of the current branch
-	Tr      *tl.Trace
+	Tr      *Trace
 	Sum     *tl.Summary
 	R       *rand.Rand
 	Counter int  // last value of the counter account
 	Full    bool // log complete id/recoverable/record listings (small models)
+	Rolled  bool // a rollback succeeded since the stored journal was written
 	Extra   func(ev tl.M)
 }
 
-func NewRunner(shape Shape, cfg Config, dir string, tr *tl.Trace, sum *tl.Summary, r *rand.Rand) (*Runner, error) {
+func NewRunner(shape Shape, cfg Config, dir string, tr *Trace, sum *tl.Summary, r *rand.Rand) (*Runner, error) {
 	os.RemoveAll(dir)
 	if err := os.MkdirAll(dir, 0o755); err != nil {
 		return nil, err
@@ -45,7 +73,7 @@ func (rn *Runner) Close() {
 
 // ResetEvent starts a new trace in the ndjson stream.
 func (rn *Runner) ResetEvent(extra tl.M) {
-	ev := tl.M{"op": "reset", "nk": rn.E.Shape.NK(), "cfg": tl.M{"maxDiff": rn.E.Cfg.MaxDiff, "histLimit": rn.E.Cfg.HistLimit}}
+	ev := tl.M{"op": "reset", "nk": rn.E.Shape.NK(), "cfg": tl.M{"maxDiff": rn.E.Cfg.MaxDiff, "histLimit": rn.E.Cfg.HistLimit, "async": rn.E.Cfg.Async}}
 	for k, v := range extra {
 		ev[k] = v
 	}
@@ -124,6 +152,12 @@ func (rn *Runner) observe(ev tl.M) {
 		rec = append(rec, tl.M{"w": wi.W, "ok": ok})
 	}
 	ev["ids"], ev["rec"] = ids, rec
+	// the layer journal stored in the key-value store
+	if base, droot, did, diffs, ok := pathdb.VerifHistJournal(e.KV.Database); ok {
+		ev["jr"] = tl.M{"has": true, "base": worldOrEmpty(e.WorldOfRoot(base)), "disk": tl.M{"root": worldOrEmpty(e.WorldOfRoot(droot)), "id": did}, "n": len(diffs)}
+	} else {
+		ev["jr"] = tl.M{"has": false}
+	}
 	if rn.Extra != nil {
 		rn.Extra(ev)
 	}
@@ -240,6 +274,7 @@ func (rn *Runner) Recover(w World) bool {
 	err := rn.E.TDB.Recover(wi.Root)
 	if err == nil {
 		rn.Head = wi.Root
+		rn.Rolled = true
 	} else if _, _, live := rn.E.PDB.VerifHistChain(rn.Head); !live {
 		// a failed rollback that nevertheless moved the disk layer: follow it
 		rn.Head, _, _, _ = rn.E.PDB.VerifHistDisk()
@@ -264,6 +299,7 @@ func (rn *Runner) Reopen(i int) {
 		tl.Fatal("reopen: %v", err)
 	}
 	rn.Head = roots[i]
+	rn.Rolled = false
 	if rn.E.PDB == nil {
 		tl.Fatal("reopen lost the database")
 	}
@@ -278,13 +314,52 @@ func (rn *Runner) Reopen(i int) {
 	rn.Sum.Count("Reopen")
 }
 
+// JournalMatches reports whether the stored journal would be accepted at the next open:
+// written over the currently persisted root, persistent id not above its disk layer id.
+func (rn *Runner) JournalMatches() (match bool, head common.Hash) {
+	base, droot, did, diffs, ok := pathdb.VerifHistJournal(rn.E.KV.Database)
+	if !ok {
+		return false, common.Hash{}
+	}
+	kvroot, _ := rn.E.diskRootFromKV()
+	if base != kvroot || rawdb.ReadPersistentStateID(rn.E.KV.Database) > did {
+		return false, common.Hash{}
+	}
+	head = droot
+	if len(diffs) > 0 {
+		head = diffs[len(diffs)-1]
+	}
+	return true, head
+}
+
+// RestartCovered reports whether an unjournaled restart is within the scope of the C17
+// model: no acceptable old journal, or no rollback since it was written.
+func (rn *Runner) RestartCovered() bool {
+	m, _ := rn.JournalMatches()
+	return !m || !rn.Rolled
+}
+
 // Restart closes the database without journaling and opens it again.
 func (rn *Runner) Restart() {
-	if err := rn.E.Reopen(nil); err != nil {
+	match, jhead := rn.JournalMatches()
+	rn.E.Close()
+	var err error
+	if match {
+		err = rn.E.open(jhead)
+	} else {
+		err = rn.E.open()
+	}
+	if err != nil {
 		tl.Fatal("restart: %v", err)
 	}
 	rn.Head, _, _, _ = rn.E.PDB.VerifHistDisk()
-	ev := tl.M{"op": "Restart"}
+	restored := false
+	if match {
+		if _, _, ok := rn.E.PDB.VerifHistChain(jhead); ok {
+			rn.Head, restored = jhead, true
+		}
+	}
+	ev := tl.M{"op": "Restart", "restored": restored}
 	rn.observe(ev)
 	rn.Tr.Emit(ev)
 	rn.Sum.Count("Restart")
@@ -312,7 +387,7 @@ func (rn *Runner) RandomWorld(p World, maxVal int) (n World, touch, recreate map
 			if v == 0 {
 				has := false
 				for q := a + 1; q < nk && s.Owner(q) == a; q++ {
-					has = has || n[q] != 0
+					has = has || n[q] != 0 || p[q] != 0
 				}
 				if has && rn.E.Cfg.Cancun {
 					continue // storage must be cleared by earlier transitions
